@@ -16,6 +16,12 @@ lean/QmcProofs/RvbExtractFlip.lean, RvbHam.lean, RvbReverse.lean, RvbWeight.lean
   `ising_timestep_invariant_rvb_proposal`: one Ising `timestep` WITH the RVB update enabled
   (`timestepWith sweepKM [restr S rvbK] (ofComponents ...)`) leaves the SSE measure invariant.
 
+* `rvb_proposeRegion_regionOK`: the region the exact proposal model `proposeRegion` hands over satisfies `RegionOK`
+  for every Good configuration and every script (derived: QmcProofs/RvbRegionDerive.lean); hence
+  `rvb_kernel_proposal_eq` (with the model's proposal law the RegionOK guard is redundant) and
+  `ising_timestep_invariant_rvb_cut_proposal` (no hypothesis on the regions). `rvb_regionOK_decider`,
+  `rvb_moveOK_decider`: the deciders the driver evaluates on every traced proposal / applied update are sound.
+
 Built and audited (#print axioms + forbidden-token scan over the import closure) as extra obligations of C03.
 Usage from the C03 plugin: `from checks import extra_c03kernel; extra_c03kernel.run(ck)`."""
 MODULE = "QmcProps.C03Kernel"
@@ -31,7 +37,8 @@ THEOREMS = (
         "rvb_moveOK_symm", "rvb_kernel_target_in_space", "rvb_kernel_entry", "rvb_kernel_reversible", "rvb_kernel_reversible_cut",
         "rvb_kernel_rowSum", "rvb_kernel_invariant", "rvb_kernel_invariant_cut",
         "ising_timestep_invariant_rvb", "ising_timestep_invariant_rvb_cut", "ising_timestep_invariant_rvb_cut_hb",
-        "ising_timestep_invariant_rvb_proposal",
+        "ising_timestep_invariant_rvb_proposal", "ising_timestep_invariant_rvb_cut_proposal",
+        "rvb_proposeRegion_regionOK", "rvb_regionOK_of_proposed", "rvb_kernel_proposal_eq", "rvb_moveOK_decider",
         "exB_good", "exR_regionOK", "ex_moveOK", "exE_closeExact", "exE_edgesOK", "ex_rvbT"]]
     + [XF + t for t in [
         "stepOp_eq_stepI", "run_eq_runI", "boundary_xor", "step_rebond", "step_flip", "lockstep",
@@ -42,7 +49,13 @@ THEOREMS = (
         "admissible_of_good", "closeExact_of_grid", "closeExact_of_nonpos",
         "remK_reversible", "remK_rowSumOn", "mixRate_balance", "MoveOK.symm", "guard_of_moveOK", "guard_balance",
         "rvbT_balance", "rvbK_reversible", "rvbK_reversible_cut", "rvbK_rowSumOn", "rvbK_invariant",
-        "rvbK_invariant_cut", "ising_timestep_invariant_rvb", "ising_timestep_invariant_rvb_cut"]]
+        "rvbK_invariant_cut", "ising_timestep_invariant_rvb", "ising_timestep_invariant_rvb_cut",
+        "regionOKb_sound", "moveOKb_sound"]]
+    + ["Qmc.Rvb.Derive." + t for t in [
+        "keysOf_insert", "keysOf_removeIndex", "owns_unique", "constantPs_at", "mem_constPs", "push_some", "push_none",
+        "pop_inv", "fos_ne_nil", "pushNeighbours_inv", "growOne_inv", "buildCluster_inv", "asm_fold",
+        "assemble_regionOK", "proposeRegion_regionOK", "regionOK_of_qProp", "rvbKP_eq_rvbK",
+        "ising_timestep_invariant_rvb_cut_proposal"]]
 )
 
 
